@@ -37,25 +37,32 @@ Definition add_eq_cy (vt : vartype) (terms : list lterm) (lam c : Qc) (p : poly)
   eq_quad_part vt lam terms (fold_left (eq_lin_step vt lam c) terms (add_offset (lam * c * c) p)).
 
 (* ------------------------------------------------------------------ *)
-(* python fallback: itertools.combinations_with_replacement(terms, 2); `u == v`
-   compares LABELS, so two different positions with the same label take the
-   "diagonal" branch *)
+(* python fallback (repaired, c3cb487): itertools.combinations_with_replacement(enumerate(terms), 2);
+   `i == j` compares POSITIONS (the diagonal), `u == v` at different positions is two terms
+   over the same variable (s*s == 1, x*x == x), otherwise an interaction *)
 
-Definition py_pair_step (vt : vartype) (lam c : Qc) (t u : lterm) (p : poly) : poly :=
+Definition py_diag (vt : vartype) (lam c : Qc) (t : lterm) (p : poly) : poly :=
+  match vt with
+  | SPIN => add_offset (lam * snd t * snd t) (add_linear (fst t) (two * lam * snd t * c) p)
+  | _ => add_linear (fst t) (lam * snd t * (two * c + snd t)) p
+  end.
+
+Definition py_pair_step (vt : vartype) (lam : Qc) (t u : lterm) (p : poly) : poly :=
   if (fst t =? fst u)%nat then
     match vt with
-    | SPIN => add_offset (lam * snd t * snd u) (add_linear (fst t) (two * lam * snd t * c) p)
-    | _ => add_linear (fst t) (lam * snd t * (two * c + snd u)) p
+    | SPIN => add_offset (two * lam * snd t * snd u) p
+    | _ => add_linear (fst t) (two * lam * snd t * snd u) p
     end
   else add_quadratic (cvt vt) (fst t) (fst u) (two * lam * snd t * snd u) p.
 
+(* pairs (i, i), (i, i+1), ..., (i, n-1) *)
 Definition py_row (vt : vartype) (lam c : Qc) (t : lterm) (r : list lterm) (p : poly) : poly :=
-  fold_left (fun acc u => py_pair_step vt lam c t u acc) r p.
+  fold_left (fun acc u => py_pair_step vt lam t u acc) r (py_diag vt lam c t p).
 
 Fixpoint py_pairs (vt : vartype) (lam c : Qc) (terms : list lterm) (p : poly) : poly :=
   match terms with
   | [] => p
-  | t :: r => py_pairs vt lam c r (py_row vt lam c t (t :: r) p)
+  | t :: r => py_pairs vt lam c r (py_row vt lam c t r p)
   end.
 
 Definition add_eq_py (vt : vartype) (terms : list lterm) (lam c : Qc) (p : poly) : poly :=
